@@ -2529,6 +2529,8 @@ return 1;""",
         output.extend(["#ifndef %s" % guard, "#define %s" % guard])
 
         output.append("")
+        # Required since Python 3.10 for '#' formats such as "s#".
+        output.append("#define PY_SSIZE_T_CLEAN")
         output.append("#include <Python.h>")
         self.header_type_include.write_headers(output)
 
